@@ -10,6 +10,7 @@ fixes = E.current_fixes() if "--pinned" not in sys.argv else []
 nocheck = "--nomc" in sys.argv
 inst, emit, opts = INSTANCES[name]
 E.build_harness()
+E.build_harness(off=True)
 t0=time.time()
 r = E.run_tlc(name, inst, fixes, props, emit, workers=12, timeout=int(os.environ.get("TLC_TIMEOUT","600")), simulate=opts.get("simulate"), seed=1)
 print("TLC: %d distinct, %d generated, depth %d, %d behaviours, %.1fs, violated=%s timed_out=%s" % (r["distinct"], r["states"], r["depth"], len(r["behaviours"]), r["wall"], r["violated"], r["timed_out"]))
